@@ -4,6 +4,7 @@ package checks
 
 import (
 	"fmt"
+	"os"
 	"testing"
 
 	"pgregory.net/rapid"
@@ -102,20 +103,23 @@ func c05Check(t tb, bc behContext) {
 
 func TestC05(t *testing.T) {
 	col := ev.Get()
-	var rc behCase
-	if replayPayload(t, &rc) {
-		// a replay is either a verdict case (single member, empty script) or a behaviour case
+	stored := func(path string) {
+		// a stored case is either a verdict case (single member, empty script) or a behaviour case
+		var rc behCase
+		loadRegress(t, path, &rc)
 		if len(rc.Members) == 1 && len(rc.Members[0].Script.Ops) == 0 && len(rc.Members[0].Files) == 1 {
 			verdictEvalAndClean(t, cfgCase{C: rc.Members[0].Files[0], Style: rc.Members[0].Style})
 			return
 		}
 		behBatch(t, rc, c05NonTrivial, c05Check, nil)
+	}
+	if p := os.Getenv("VERIF_REPLAY"); p != "" {
+		stored(p)
+		col.Complete()
 		return
 	}
 	for _, f := range regressFiles("C05") {
-		var c behCase
-		loadRegress(t, f, &c)
-		behBatch(t, c, c05NonTrivial, c05Check, nil)
+		stored(f)
 		col.Label("regress")
 	}
 
@@ -175,12 +179,16 @@ func TestC05(t *testing.T) {
 					for _, e := range es {
 						edges = append(edges, [3]int{e[0], e[1], kind})
 					}
-					verdict(t, gen.EdgeGraph(n, edges, scopes), fmt.Sprintf("exh:n=%d", n))
+					g := gen.EdgeGraph(n, edges, scopes)
+					verdict(t, g, fmt.Sprintf("exh:n=%d", n))
+					// the same structure with look-alikes that are no dependencies (parameters and tags named like the services)
+					g.Decoys, g.Place = true, 1+sc%2
+					verdict(t, g, fmt.Sprintf("exh:n=%d:look-alike-names", n))
 				}
 			}
 		}
 	}
-	col.Exhaustive("every acyclic dependency graph on 2 and on 3 services x one edge kind of {argument, field, call argument, !tagged through a tag, decorator-on-tag with a dependency} x every assignment of {unset, shared, contextual, non_shared}")
+	col.Exhaustive("every acyclic dependency graph on 2 and on 3 services x one edge kind of {argument, field, call argument, !tagged through a tag, decorator-on-tag with a dependency} x every assignment of {unset, shared, contextual, non_shared}, each also with look-alike names (a parameter named like every service referenced by every service, every service carrying a tag named like another service) and packed argument lists")
 	if ev.Thorough() {
 		// n = 3 with mixed edge kinds, n = 4 with at most 5 edges: sampled by rapid
 		setRapidChecks(4000)
@@ -198,7 +206,9 @@ func TestC05(t *testing.T) {
 			for i := range scopes {
 				scopes[i] = rapid.SampledFrom(scopeChoices).Draw(rt, "scope")
 			}
-			verdict(rt, gen.EdgeGraph(n, edges, scopes), "random:mixed-kinds")
+			g := gen.EdgeGraph(n, edges, scopes)
+			g.Decoys, g.Place = rapid.Bool().Draw(rt, "decoys"), rapid.IntRange(0, 2).Draw(rt, "place")
+			verdict(rt, g, "random:mixed-kinds")
 		})
 	}
 
